@@ -165,9 +165,14 @@ pub fn mutate(r: &mut Rng, b: &[u8], other: &[u8]) -> (&'static str, Vec<u8>) {
 
 /// Deterministic witness minimiser for byte-string inputs. `bad(candidate)`
 /// must return true iff the candidate still shows the same violation.
-/// Steps: shortest violating prefix, then left-to-right smallest byte values.
-/// `budget` bounds the number of predicate calls.
-pub fn minimise(input: &[u8], mut bad: impl FnMut(&[u8]) -> bool, budget: usize, full_scan: bool) -> Vec<u8> {
+/// Steps: shortest violating prefix; (optionally) chunk removal; smallest
+/// value of every 8/4/2-byte big-endian window (binary search); smallest byte
+/// values left to right; shortest prefix again.
+/// `budget` bounds the number of predicate calls. `numeric_only` skips chunk
+/// removal, so that no big-endian field of the candidate ever exceeds the
+/// corresponding field of the input (used for allocation witnesses, where a
+/// shifted length field could demand an allocation that aborts the process).
+pub fn minimise(input: &[u8], mut bad: impl FnMut(&[u8]) -> bool, budget: usize, full_scan: bool, numeric_only: bool) -> Vec<u8> {
     let mut cur = input.to_vec();
     let mut calls = 0usize;
     // 1. shortest prefix
@@ -181,23 +186,48 @@ pub fn minimise(input: &[u8], mut bad: impl FnMut(&[u8]) -> bool, budget: usize,
             break;
         }
     }
-    // 2. remove chunks (right to left), sizes 8,4,2,1
-    for w in [32usize, 8, 4, 2, 1] {
-        let mut i = cur.len();
-        while i >= w && calls < budget {
-            let start = i - w;
-            let mut c = cur.clone();
-            c.drain(start..i);
-            calls += 1;
-            if bad(&c) {
-                cur = c;
-                i = start.min(cur.len());
-            } else {
-                i -= 1;
+    // 2. remove chunks (right to left)
+    if !numeric_only {
+        for w in [32usize, 8, 4, 2, 1] {
+            let mut i = cur.len();
+            while i >= w && calls < budget {
+                let start = i - w;
+                let mut c = cur.clone();
+                c.drain(start..i);
+                calls += 1;
+                if bad(&c) {
+                    cur = c;
+                    i = start.min(cur.len());
+                } else {
+                    i -= 1;
+                }
             }
         }
     }
-    // 3. smallest byte values, left to right
+    // 3. smallest window values (binary search, keeps only verified candidates)
+    for w in [8usize, 4, 2] {
+        let mut off = 0;
+        while off + w <= cur.len() && calls + 70 < budget {
+            let hi0 = read_be(&cur, off, w);
+            if hi0 != 0 {
+                let (mut lo, mut hi) = (0u64, hi0); // invariant: hi is known bad
+                while lo < hi {
+                    let mid = lo + (hi - lo) / 2;
+                    let mut c = cur.clone();
+                    write_be(&mut c, off, w, mid);
+                    calls += 1;
+                    if bad(&c) {
+                        hi = mid;
+                    } else {
+                        lo = mid + 1;
+                    }
+                }
+                write_be(&mut cur, off, w, hi);
+            }
+            off += 1;
+        }
+    }
+    // 4. smallest byte values, left to right
     for i in 0..cur.len() {
         let orig = cur[i];
         if orig == 0 {
@@ -216,7 +246,7 @@ pub fn minimise(input: &[u8], mut bad: impl FnMut(&[u8]) -> bool, budget: usize,
             cur[i] = orig;
         }
     }
-    // 4. shortest prefix again (values changed)
+    // 5. shortest prefix again (values changed)
     for l in 0..cur.len() {
         if calls >= budget {
             break;
